@@ -337,8 +337,18 @@ def _expr_form(idx: PyIndex, fi: FuncInfo, call: ast.Call, h: FuncInfo) -> Optio
                 g = ast.GeneratorExp(elt=_SubstExpr(env).visit(copy.deepcopy(st.body[0].value.value)),
                                      generators=[ast.comprehension(target=copy.deepcopy(st.target), iter=_SubstExpr(env).visit(copy.deepcopy(st.iter)), ifs=[], is_async=0)])
                 elts.append(ast.Starred(value=g, ctx=ast.Load()))
+            elif isinstance(st, ast.For) and not st.orelse and isinstance(st.target, ast.Name) and st.target.id not in env and len(st.body) == 1 \
+                    and isinstance(st.body[0], ast.If) and not st.body[0].orelse and len(st.body[0].body) == 1 and isinstance(st.body[0].body[0], ast.Expr) \
+                    and isinstance(st.body[0].body[0].value, ast.Yield) and st.body[0].body[0].value.value is not None:
+                # for x in E: if P(x): yield F(x)
+                g = ast.GeneratorExp(elt=_SubstExpr(env).visit(copy.deepcopy(st.body[0].body[0].value.value)),
+                                     generators=[ast.comprehension(target=copy.deepcopy(st.target), iter=_SubstExpr(env).visit(copy.deepcopy(st.iter)),
+                                                                   ifs=[_SubstExpr(env).visit(copy.deepcopy(st.body[0].test))], is_async=0)])
+                elts.append(ast.Starred(value=g, ctx=ast.Load()))
             else:
                 return None
+        if len(elts) == 1 and isinstance(elts[0], ast.Starred) and isinstance(elts[0].value, ast.GeneratorExp):
+            return elts[0].value         # one loop: the generator function IS that generator expression
         return ast.Tuple(elts=elts, ctx=ast.Load()) if elts else None
     if any(isinstance(x, (ast.Yield, ast.YieldFrom)) for x in ast.walk(n)):
         e = gen_display(body, dict(bound))
@@ -723,13 +733,21 @@ def inline_function(idx: PyIndex, fi: FuncInfo, depth: int = 2, keep=None, types
                             if node is call:
                                 return node
                             h2 = _helper_for(idx, fi, node, tenv)
+                            nonlocal changed
                             if h2 is not None and h2.id != fi.id and h2.qualname.split('.')[-1] not in keep and _inlinable(h2, False):
                                 ex2 = _expand(idx, fi, node, h2, st)
                                 if ex2 is not None and ex2[1] is not None:
-                                    nonlocal changed
                                     pre.extend(ex2[0])
                                     changed = True
                                     return ast.copy_location(copy.deepcopy(ex2[1]), node)
+                            elif h2 is not None and h2.id != fi.id and h2.qualname.split('.')[-1] not in keep and isinstance(h2.node, ast.FunctionDef) \
+                                    and any(isinstance(x, (ast.Yield, ast.YieldFrom)) for x in ast.walk(h2.node)):
+                                # a generator function: usable where it reduces to the display / generator expression it produces
+                                ex3 = _expr_form(idx, fi, node, h2)
+                                if ex3 is not None:
+                                    _touched_modules.add(h2.module)
+                                    changed = True
+                                    return ast.copy_location(ex3, node)
                             return node
                     st.value = _Nested().visit(st.value)
                     out.extend(pre)
